@@ -17,7 +17,7 @@ func init() {
 		ID:      "C15",
 		Run:     runC15,
 		NeedSSA: true,
-		Level:   "Static analysis (constant evaluation of the registry literal against a transcribed specification table; abstract interpretation of the lookup; alias analysis of its result; bit-lane analysis of the header packing). Decides: registry/<name> — each entry's class, field number and payload width equal spec/oxm_registry.json (OpenFlow 1.3.5 Table 12, OVS meta-flow.h), names unique after upper-casing; lookup — the key is upper-cased before the map access, the result's width doubles and its mask flag is set exactly in the mask branch, class/field are copied, and doubling cannot wrap uint8 for any registered width; fresh — the returned pointer is a new allocation that copies no pointer from the table; lanes — MarshalHeader/UnmarshalHeader place class, field, mask flag and length in disjoint lanes of the 32-bit word at the specified positions and are inverse on all 32 bits (covers all 2^32 words at once). Not decided: nothing numeric is sampled.",
+		Level:   "Static analysis (constant evaluation of the registry literal against a transcribed specification table; abstract interpretation of the lookup; alias analysis of its result; bit-lane analysis of the header packing). Decides: registry/<name> — each entry's class, field number and payload width equal spec/oxm_registry.json (OpenFlow 1.3.5 Table 12, OVS meta-flow.h), names unique after upper-casing; lookup — the key is upper-cased before the map access, the result's width doubles and its mask flag is set exactly in the mask branch, class/field are copied, and doubling cannot wrap uint8 for any registered width; fresh — the returned pointer is a new allocation that copies no pointer from the table; lanes — MarshalHeader/UnmarshalHeader place class, field, mask flag and length in disjoint lanes of the 32-bit word at the specified positions and are inverse on all 32 bits (covers all 2^32 words at once). Not decided: nothing numeric is sampled. Also decided: unpack-total — the 4-byte header decoder refuses nothing but a short input (every word pack can produce is unpacked again).",
 		Assumptions: []string{
 			"spec/oxm_registry.json transcribes OpenFlow 1.3.5 Table 12 and Open vSwitch lib/meta-flow.h (hand-transcribed; an error there is a false alarm or a miss)",
 			"strings.ToUpper is the case folding the statement means",
